@@ -3,6 +3,7 @@ package main
 func init() { register("C20", propC20) }
 
 func propC20(c *Ctx) propInfo {
+	c.bits256Lengths()
 	c.bocDepthLimitsAgree() // a cell's JSON form goes through the serialiser AND the hasher: they must accept the same depths
 	c.intFamily(false, true, false)
 	c.jsonPairs("boc", "tlb", "ton", "tl", "abi")
